@@ -5,6 +5,8 @@ import numpy as np
 
 from vmon import diff, gen, instr, models, scen
 
+from vmon.scale import S
+
 ID = 'C05'
 RULE = ('cases = pairs of fits from (init, init[..., perm, :]) (source-activity mask permuted alike) for all K! permutations '
         '(K <= 4; 30 sampled for K = 5, 6), all seven trainers, all tying options, 1..20 iterations; posteriors (returned and '
@@ -19,7 +21,7 @@ ASSUMPTIONS = ['inline aligners and the integration models built-in alignment br
 
 def plan(tier, seed):
     rng = np.random.default_rng([seed, 105])
-    n = 20 if tier == 'quick' else 160
+    n = S(tier, 20, 160)
     pick = lambda xs: xs[int(rng.integers(len(xs)))]
     cases, i = [], 0
     for kind in models.KINDS:
@@ -37,7 +39,10 @@ def plan(tier, seed):
             if o.get('saliency') == 'zeros':
                 o['saliency'] = 'pos'
             iters = int(pick([1, 2, 3, 5, 10, 20])) if kind != 'cbmm' else int(pick([1, 2]))
-            cases.append(dict(kind=kind, cls='gauss', K=K, N=N, D=D, lead=lead, init=pick(['dirichlet:1', 'dirichlet:0.3', 'blur:0.3', 'onehot']),
+            ini = pick(['dirichlet:1', 'dirichlet:0.3', 'blur:0.3', 'onehot', 'neardup'])
+            if kind == 'cbmm' and r % 2:
+                ini = 'neardup'; N = int(rng.integers(200, 400)); K = 3
+            cases.append(dict(kind=kind, cls='gauss', K=K, N=N, D=D, lead=lead, init=ini,
                               iters=iters, opts=o, rs=[seed, 5, i]))
             i += 1
     return cases
@@ -51,9 +56,18 @@ def perms_for(K, rng):
 
 
 def run_case(case, R):
+    neardup = case['init'] == 'neardup'
+    if neardup:
+        case = dict(case, init='dirichlet:1')
     s = scen.build(case)
     kind = s.kind
     rng = np.random.default_rng([*case['rs'], 55])
+    if neardup and s.K >= 2:
+        # two classes start almost (not exactly) alike: order-dependent shortcuts (caches keyed by rounded values,
+        # tie breaks on the class index) show up only here
+        ini = s.init.copy()
+        ini[..., 1, :] = ini[..., 0, :] * (1 + float(rng.choice([3e-3, 3e-4])) * rng.uniform(-1, 1, size=ini[..., 0, :].shape))
+        s.init = ini / ini.sum(-2, keepdims=True)
     tol_post = 1e-5 if kind == 'cbmm' else 1e-9
 
     def run(init, mask, fc=None, data=None):
